@@ -26,7 +26,8 @@ RULE = ("scenario = redirect chain of 0..5 hops (each its own simulated host) x 
 ASSUMPTIONS = ["duplicate Upgrade/Connection/Accept headers and accept values differing only in letter case are outside the property",
                "a redirect without Location, or with an unparsable one, is C17's subject"]
 
-STATUSES = (101, 100, 200, 204, 301, 302, 303, 307, 308, 400, 403, 404, 500, 503)
+STATUSES = (101, 100, 102, 103, 199, 200, 201, 204, 206, 226, 299, 300, 301, 302, 303, 304, 305, 306, 307, 308, 310, 399, 400, 401, 403, 404, 407,
+            418, 426, 451, 499, 500, 502, 503, 599)
 REDIRECTS = (301, 302, 303, 307, 308)
 UPGRADE_VARIANTS = {"std": "websocket", "case": "WebSocket", "upper": "WEBSOCKET", "padded": "  websocket  ",
                     "list": "h2c, websocket", "list2": "WebSocket ,foo", "missing": None, "lookalike": "websocketx",
@@ -94,6 +95,8 @@ class HSPeer(BasePeer):
         hdrs = []
         if st in REDIRECTS and sp.get("location"):
             hdrs.append(("Location", sp["location"]))
+        if sp.get("location_extra"):
+            hdrs.append(("Location", sp["location_extra"]))  # a Location on a status that is not a followed redirect
         up = UPGRADE_VARIANTS[sp.get("upgrade", "std")]
         co = CONNECTION_VARIANTS[sp.get("connection", "std")]
         if up is not None:
@@ -151,7 +154,9 @@ def addr(i):
 
 
 def plan(tier, seed):
-    items = [{"kind": "chains", "exhaustive": "all redirect chain lengths 0..5 x redirect_limit {0..4, default} x final good/bad"},
+    items = [{"kind": "allstatus", "lo": lo, "hi": lo + 50, "exhaustive": "every status code 100..599 x {bare head, with valid upgrade headers, with Location}"}
+             for lo in (range(100, 600, 50) if tier == "thorough" else ())]
+    items += [{"kind": "chains", "exhaustive": "all redirect chain lengths 0..5 x redirect_limit {0..4, default} x final good/bad"},
              {"kind": "positions", "step": 1, "exhaustive": "every byte position of a standard, a redirect and a subprotocol head as eof and as timeout point"},
              {"kind": "variants", "exhaustive": "every Upgrade x Connection variant pair; every accept variant; every status"}]
     n = 8000 if tier == "quick" else 150000
@@ -178,6 +183,21 @@ def _chain(n, final, status=302):
 
 def expand(item, seed):
     k = item["kind"]
+    if k == "allstatus":
+        for st in range(item["lo"], item["hi"]):
+            for limit in (None, 0):
+                if st in REDIRECTS:
+                    yield {"hops": [_final(status=st, location=f"ws://{host(1)}/x"), _final()], "limit": limit, "subprotocols": None,
+                           "api": "connect", "fault": None, "timeout": 2 * S, "seed": 1}
+                    continue
+                for acc in ("right", "missing"):
+                    f = _final(status=st, accept=acc)
+                    if acc == "missing":
+                        f["upgrade"], f["connection"] = "missing", "missing"
+                    yield {"hops": [f], "limit": limit, "subprotocols": None, "api": "connect", "fault": None, "timeout": 2 * S, "seed": 1}
+                    yield {"hops": [dict(f, location_extra=f"ws://{host(1)}/x")], "limit": limit, "subprotocols": None, "api": "connect",
+                           "fault": None, "timeout": 2 * S, "seed": 1}
+        return
     if k == "chains":
         for n in range(0, 6):
             for limit in (None, 0, 1, 2, 3, 4):
@@ -205,6 +225,11 @@ def expand(item, seed):
                     yield {"hops": _chain(n, _final(accept=a, char_idx=ci)), "limit": None, "subprotocols": None,
                            "api": "connect", "fault": None, "timeout": 2 * S, "seed": 1}
         for st in STATUSES:
+            if st not in REDIRECTS and st != 101:
+                yield {"hops": [_final(status=st, location_extra=f"ws://{host(1)}/x")], "limit": None, "subprotocols": None, "api": "connect",
+                       "fault": None, "timeout": 2 * S, "seed": 1}
+                yield {"hops": [_final(status=st, upgrade="missing", connection="missing", accept="missing")], "limit": 0, "subprotocols": None,
+                       "api": "connect", "fault": None, "timeout": 2 * S, "seed": 1}
             for a in ("right", "missing"):
                 yield {"hops": [_final(status=st, accept=a, location=f"ws://{host(1)}/x") if st in REDIRECTS
                                 else _final(status=st, accept=a)] + ([_final()] if st in REDIRECTS else []),
